@@ -234,7 +234,9 @@ class ResourceMap:
         # Last key is queried at last, as the value has to be
         # discriminated between handles and maps.
         for subkey in keys[:-1]:
-            target_map.handles.pop(subkey, None)    # Overwrite duplicates
+            # Overwrite duplicates, in all the layers
+            for layer in target_map.handles.maps:
+                layer.pop(subkey, None)
 
             # Intermediate maps know their parent and key as well
             if subkey not in target_map.maps:
@@ -256,7 +258,12 @@ class ResourceMap:
         if isinstance(value, ResourceMap):
             dest_map, other_map = other_map, dest_map
 
-        other_map.pop(last_key, None)         # Delete duplicates
+        # Delete duplicates. Handles may be shadowed in deeper layers
+        if other_map is target_map.handles:
+            for layer in other_map.maps:
+                layer.pop(last_key, None)
+        else:
+            other_map.pop(last_key, None)
         dest_map[last_key] = value
 
         # Set added value's key in its immediate parent (last_key)
